@@ -1052,6 +1052,9 @@ class TrigInfo:
         """Task that runs for each trigger, waiting for the next trigger and calling the function."""
 
         try:
+            if self.task is None:
+                # stop() ran before this task got its first turn: subscribe to nothing, run nothing
+                return
             if self.state_trigger is not None:
                 self.state_trig_ident = set()
                 if self.state_user_watch:
